@@ -100,16 +100,22 @@ def evStr : Ev → Option String
   | .stepEnd k => some s!"E{k}"
   | _ => none
 
+/-- the same for a real `SIS`: the prediction its step carries out (`sisPredicts`) is an event `P`
+between the start and the end of the step -/
+def evStrSis : Ev → Option String
+  | .stepEnd k => some (if sisPredicts k then s!"P.E{k}" else s!"E{k}")
+  | e => evStr e
+
 /-- events pushed since the history had length `n0` (oldest first) -/
-def newEvents (s : St) (n0 : Nat) : String :=
-  let evs := ((s.hist.take (s.hist.length - n0)).reverse).filterMap evStr
+def newEvents (s : St) (n0 : Nat) (sis : Bool := false) : String :=
+  let evs := ((s.hist.take (s.hist.length - n0)).reverse).filterMap (if sis then evStrSis else evStr)
   if evs.isEmpty then "-" else ".".intercalate evs
 
 /-- parking place; a thread in the wait with a notification pending (`v`) has not re-acquired the mutex yet -/
 def placeOf (s : St) : String := if s.pc == .waiting && s.woken then "v" else place s.pc
 
-def obs (tok : String) (s : St) (n0 : Nat) : String :=
-  s!"{tok}:{newEvents s n0}:{placeOf s}:{if s.isRunning then 1 else 0}:{s.stepNumber}"
+def obs (tok : String) (s : St) (n0 : Nat) (sis : Bool := false) : String :=
+  s!"{tok}:{newEvents s n0 sis}:{placeOf s}:{if s.isRunning then 1 else 0}:{s.stepNumber}"
 
 def freeRun (cfg : Cfg) (c : Bool) : Nat → T → T
   | 0, t => t
@@ -124,9 +130,12 @@ structure Run where
   padv : Option Bool := none
   out : Array String := #[]
   hung : Bool := false
+  /-- the filter is a real `SIS` (op `lifesis`): predictions are events -/
+  sis : Bool := false
 
 def runTok (cfg : Cfg) (r : Run) (tok : String) : Option Run :=
   let n0 := r.t.s.hist.length
+  let obs := fun (tok : String) (s : St) (n0 : Nat) => obs tok s n0 r.sis
   if tok == "F" then
     if r.out.isEmpty then
       some { r with t := { s := St.bootFailed, vis := #[absState St.bootFailed] }, out := r.out.push (obs tok St.bootFailed 0) }
@@ -176,12 +185,12 @@ def cfgOf : String → Option Cfg
   | "nonotify" => some ⟨true, false⟩
   | _ => none
 
-def runLine (args : List String) : Option Run := do
+def runLine (args : List String) (sis : Bool := false) : Option Run := do
   match args with
   | [] => none
   | c :: toks =>
     let cfg ← cfgOf c
-    let mut r : Run := { t := { s := St.boot, vis := #[absState St.boot] } }
+    let mut r : Run := { t := { s := St.boot, vis := #[absState St.boot] }, sis := sis }
     for t in toks do
       if r.hung then break
       r ← runTok cfg r t
@@ -190,6 +199,7 @@ def runLine (args : List String) : Option Run := do
 def handle (op : String) (args : List String) : Option String :=
   match op with
   | "life" => some (((runLine args).map fun r => " ".intercalate r.out.toList).getD "bad-args")
+  | "lifesis" => some (((runLine args true).map fun r => " ".intercalate r.out.toList).getD "bad-args")
   | "lifev" => some (((runLine args).map fun r => " ".intercalate r.t.vis.toList.eraseDups).getD "bad-args")
   | _ => none
 
